@@ -1,0 +1,47 @@
+//go:build verif
+
+package opshell
+
+/*
+ * verif_on.go
+ * Verification seams, for deterministic simulation (-tags verif)
+ */
+
+import (
+	"io"
+	"os"
+)
+
+// VerifStdio, if set, is used for the terminal's byte streams instead of
+// os.Stdin and os.Stdout.
+var VerifStdio io.ReadWriter
+
+// VerifYield, if set, is called before and after the shell's write lock is
+// taken ("timer", "ctrlo", "plain", "plain-locked", "logf", "logf-locked").
+// It may block to hold the caller at that point.
+var VerifYield func(site string)
+
+// verifYield calls VerifYield, if set.
+func verifYield(site string) {
+	if f := VerifYield; nil != f {
+		f(site)
+	}
+}
+
+// stdioRW combines os.Stdin and os.Stdout, or VerifStdio if set, into an
+// io.ReadWriter.
+type stdioRW struct {
+}
+
+func (stdioRW) Read(p []byte) (int, error) {
+	if rw := VerifStdio; nil != rw {
+		return rw.Read(p)
+	}
+	return os.Stdin.Read(p)
+}
+func (stdioRW) Write(p []byte) (int, error) {
+	if rw := VerifStdio; nil != rw {
+		return rw.Write(p)
+	}
+	return os.Stdout.Write(p)
+}
